@@ -43,6 +43,9 @@ type JNode struct {
 	// Large forces the large storage format for this container (only honoured
 	// at the root or under a large parent, as the format requires).
 	Large bool `json:",omitempty"`
+	// Empty (root JNull only): the column value has length zero, which the server reads as the
+	// JSON null literal (Field_json::val_json); such values come from non-strict / IGNORE inserts
+	Empty bool `json:",omitempty"`
 }
 
 // JSON binary type bytes.
@@ -308,6 +311,9 @@ func container(n *JNode, large bool, depth int, st *JSONStats) ([]byte, bool) {
 // JSONBinary serialises a document as json_binary.cc does: type byte, then the
 // value; containers try the small format first and fall back to the large one.
 func JSONBinary(n *JNode, st *JSONStats) []byte {
+	if n.Empty && n.K == JNull {
+		return []byte{}
+	}
 	if n.K == JObject || n.K == JArray {
 		var body []byte
 		ok := false
